@@ -306,6 +306,29 @@ func init() {
 		}
 		return iface{t: r.t, v: r.v}
 	})
+	reg("(reflect.Value).Pointer", func(ex *Exec, fr *frame, pos token.Pos, args []value) value {
+		r := ex.rvalOf(args[0])
+		if !r.valid {
+			ex.oblige("panic", "reflect: call of reflect.Value.Pointer on zero Value", fr, pos, ex.b.False)
+		}
+		// code pointers of top-level functions: one stable identity per function
+		switch f := r.v.(type) {
+		case *ssa.Function:
+			if f == nil {
+				return ex.k(0)
+			}
+			id, ok := ex.fnIDs[f]
+			if !ok {
+				if ex.fnIDs == nil {
+					ex.fnIDs = map[*ssa.Function]int64{}
+				}
+				id = int64(0x10000 + 16*len(ex.fnIDs))
+				ex.fnIDs[f] = id
+			}
+			return ex.k(id)
+		}
+		panic(ex.unsupported(fmt.Sprintf("reflect.Value.Pointer on %T", r.v)))
+	})
 	reg("(reflect.Value).IsValid", func(ex *Exec, fr *frame, pos token.Pos, args []value) value {
 		return ex.b.Bool(ex.rvalOf(args[0]).valid)
 	})
